@@ -37,6 +37,7 @@ def gen_case(tape, schema_knobs=None, doc_knobs=None, vars_knobs=None, doc_post=
     c.sdl = print_sdl(c.schema)
     c.doc = gen_document(c.schema, tape, doc_knobs)
     if doc_post is not None:
+        c.doc.schema_model = c.schema  # for post-processors that need the types
         doc_post(c.doc, tape)
     if tape.preset and "@doc" in tape.preset:
         # an explicit (minimised) document model recorded in a replay file replaces the generated one
